@@ -1,15 +1,11 @@
 --------------------------- MODULE Gen_ConvertHdr ---------------------------
 (* Behaviour generator for the header/metadata part of C18: every completed scenario of the
    ConvertHdr machine is printed with the result the DECLARATIVE operators require (exp), the
-   result of the real-code round trip the statement speaks of (rt), and - for classification of
-   mismatches only - what the known defects of the unchanged tree would produce (alt).
+   result of the real-code round trip the statement speaks of (rt) and what must arrive when
+   the outgoing metadata really travels over grpc-go (wire).
    Exhaustive for short lists, -simulate for longer lists / richer vocabularies. *)
 EXTENDS ConvertHdr, Json
 
-Alt == CASE op = "h2md" -> Entries(Known_LastWins(h))
-         [] op = "out"  -> Entries(Known_OutgoingNoDecode(pre, h))
-         [] op = "md2h" -> Entries(Known_SourceEncodedInPlace(SrcMap))
-         [] OTHER       -> {}
 RT  == CASE op = "h2md" -> MDToHdr(HdrToMD(h))                \* header list -> metadata -> header list
          [] op = "md2h" -> Entries(HdrToMD(SomeSeq(MDToHdr(SrcMap))))   \* metadata -> header list -> metadata
          [] op = "addh" -> MapToHdr(AddHdr(pre, h))            \* header list -> http.Header -> header list
@@ -17,12 +13,11 @@ RT  == CASE op = "h2md" -> MDToHdr(HdrToMD(h))                \* header list -> 
 
 \* what the RECEIVING server reports as header list when the outgoing metadata really travels over
 \* grpc-go (which encodes -bin values on the wire and decodes them on receipt) and is converted
-\* back with ConvertMetadataToProtoHeader; WireAlt: the same under the known no-decode defect
-Wire    == IF op = "out" THEN MDToHdr(Outgoing(pre, h)) ELSE {}
-WireAlt == IF op = "out" THEN MDToHdr(Known_OutgoingNoDecode(pre, h)) ELSE {}
+\* back with ConvertMetadataToProtoHeader
+Wire == IF op = "out" THEN MDToHdr(Outgoing(pre, h)) ELSE {}
 
 Emit == (pc = "done") =>
           PrintT("SCN " \o ToJson([area |-> "hdr", op |-> op, h |-> h, pre |-> Entries(pre),
                                    exp |-> IF FromMap THEN Expected ELSE Entries(Expected),
-                                   rt |-> RT, alt |-> Alt, wire |-> Wire, wire_alt |-> WireAlt]))
+                                   rt |-> RT, wire |-> Wire]))
 =============================================================================
